@@ -160,7 +160,15 @@ def run_unit(args):
                 except Exception:
                     pass
 
-        eng.explore(run_path, on_end)
+        timed_out = None
+        try:
+            eng.explore(run_path, on_end)
+        except core.HarnessError as e:
+            if 'wall-clock budget' in str(e):
+                timed_out = str(e)      # keep what was found so far (candidates), report the unit as inconclusive
+            else:
+                raise
+        out['timeout'] = timed_out
         out.update({
             'paths': eng.stats.paths, 'cut': eng.stats.cut, 'cut_kinds': cut_kinds, 'path_ends': path_ends,
             'decisions': eng.stats.decisions,
@@ -304,6 +312,7 @@ def run_property(prop: str, tier: str, seed: int, jobs: int = 0, only: Optional[
     results.sort(key=lambda r: (r['harness'], r['idx']))
 
     errors = [r for r in results if r.get('error')]
+    timeouts = [r for r in results if r.get('timeout')]
     known_all = load_known(prop)
     agg: Dict[str, dict] = {}
     total = dict(paths=0, cut=0, obligations=0, discharged=0, undecided=0, candidates=0, known_hits=0,
@@ -442,6 +451,10 @@ def run_property(prop: str, tier: str, seed: int, jobs: int = 0, only: Optional[
         status = EXIT_HARNESS
         for r in errors[:5]:
             msgs.append(f'HARNESS-ERROR property={prop} harness={r["harness"]} config={r["config"]}\n{r["error"]}')
+    if timeouts:
+        status = EXIT_HARNESS
+        for r in timeouts[:5]:
+            msgs.append(f'INCONCLUSIVE property={prop} harness={r["harness"]} config={r["config"]}: {r["timeout"]}')
     if reach_problems or cut_problems:
         status = EXIT_HARNESS
         msgs += ['HARNESS-ERROR ' + m for m in reach_problems + cut_problems]
